@@ -659,7 +659,7 @@ class World:
         else:
             for g in self.spec["genes"].values():
                 st[g["name"]] = aldy.common.JsonDict(
-                    {"sample": "POISON", "cn": aldy.common.JsonDict({"sol": [["9", "9"]]}),
+                    {"sample": "POISON", "cn": aldy.common.JsonDict({"sol": [{"1": 3}], "data": {}}),
                      "major": aldy.common.JsonDict({i: aldy.common.JsonDict({"sol": [{"POISON": 7}], "data": [], "cn": "{}"}) for i in range(40)}),
                      "minor": aldy.common.JsonDict({i: aldy.common.JsonDict({"sol": [("POISON", [], [])], "diplotype": [[9], [9]], "data": []}) for i in range(40)})})
         self.epoch += 1
@@ -939,6 +939,8 @@ def run_history(spec, ops, tid, reload_cov=False, with_values=False, first_in_fo
         if with_values:
             values.update(v)
         idx += len(r)
+    for r in rows:
+        r.setdefault("w", tid)   # memo group of HistoryTrace (the caller groups the histories of one world)
     return rows, values
 
 
